@@ -701,6 +701,31 @@ func run(r *mon.Run) {
 		}
 	}
 
+	// ---- 7b. one process decodes valid MI streams one after the other (record sizes growing by less / more than a proof)
+	if r.Shard == 0 {
+		for _, enc := range []mice.Encoding{mice.Draft02Encoding, mice.Draft03Encoding} {
+			for _, rs := range []int{16, 40, 41, 48, 49, 100, 4096, 4100, 4128, 4129, 16384, 16, 1, 33, 34} {
+				payload := r.Rand("mi-seq", rs).Bytes(3*rs + 5)
+				var buf bytes.Buffer
+				digest, _ := enc.Encode(&buf, payload, rs)
+				stream := buf.Bytes()
+				var out []byte
+				var derr error
+				guard(r, "mice.NewDecoder+Read", fmt.Sprintf("valid-stream-sequence/rs=%d", rs), stream[:8], len(stream), func() {
+					d, err := enc.NewDecoder(bytes.NewReader(stream), digest, 16384)
+					if err != nil {
+						derr = err
+						return
+					}
+					out, derr = io.ReadAll(d)
+				})
+				if derr != nil || !bytes.Equal(out, payload) {
+					r.Violation(fmt.Sprintf("tot:mi-seq:%s:%d", enc, rs), fmt.Sprintf("a valid %s stream (record size %d) decoded after other streams in the same process fails: %v", enc, rs, derr), nil)
+				}
+			}
+		}
+	}
+
 	// ---- 8. cbor.Decoder
 	decs := map[string]func(d *cbor.Decoder){
 		"DecodeUint": func(d *cbor.Decoder) { d.DecodeUint() }, "DecodeArrayHeader": func(d *cbor.Decoder) { d.DecodeArrayHeader() }, "DecodeMapHeader": func(d *cbor.Decoder) { d.DecodeMapHeader() },
